@@ -10,6 +10,7 @@ CONSTANTS
   Page = 4
   Header = 2
   NameMeta = 1
+  LongNames = {"b"}
   IndexEnd = 3
   MaxOps = 5
   MaxFile = 1000
